@@ -907,6 +907,16 @@ RULES = {
         ("while let Some ( lo ) = $$e ? { $$body }", "loop { let lo = match $$e ? { Some ( v__ ) => v__ , None => break , } ; $$body }"),
         ("mem :: size_of :: < u32 > ( )", "4usize"),
     ]),
+    "R54": MultiRule("R54", "from_f64 over the local model MF64 of an f64 value (prelude/floatmodel.rs; Verus has no floating point): `n: f64` -> `n: MF64`; `FloatCore::integer_decode(n)` (num_traits, external) -> model helper; `n >= 0.0` / `-n` -> model methods; `exponent.cmp(&0)` on i16 -> helper with the numeric order; `Option::map(BigInt::from)` written as a match (std definition of Option::map); `-BigInt::from(x)` in trait-method form", [
+        ("mut n : f64", "mut n : MF64"),
+        ("n : f64", "n : MF64"),
+        ("FloatCore :: integer_decode ( n )", "__integer_decode ( n )"),
+        ("exponent . cmp ( & 0 )", "__i16_cmp ( exponent , 0 )"),
+        ("n >= 0.0", "n . ge0 ( )"),
+        ("BigUint :: from_f64 ( - n ) ?", "BigUint :: from_f64 ( n . neg ( ) ) ?"),
+        ("BigUint :: from_f64 ( n ) . map ( BigInt :: from )", "match BigUint :: from_f64 ( n ) { Some ( v__ ) => Some ( BigInt :: from ( v__ ) ) , None => None , }"),
+        ("Some ( - BigInt :: from ( x ) )", "Some ( Neg :: neg ( BigInt :: from ( x ) ) )"),
+    ]),
     "R14n": Rule("R14n", "debug_assert_ne!(..); -> (dropped)", "debug_assert_ne ! ( $$c ) ;", ""),
     "R10n": Rule("R10n", "for _ in A..E { BODY } -> { let mut i__ = A; let e__ = E; while i__ < e__ { i__ += 1; BODY } }  (std: Range yields A, .., E-1; bounds evaluated once)",
                  "for _ in $$a .. $$e { $$body }", "{ let mut i__ = $$a ; let e__ = $$e ; while i__ < e__ { i__ += 1 ; $$body } }",
